@@ -30,7 +30,7 @@ func init() {
 		Tech:        "static analysis: struct tags and constants from go/types, constant-folded format strings, slice-shape agreement of writer and reader on SSA, struct-to-struct field mapping",
 		NeedU1:      true,
 		NeedU2:      true,
-		Rules:       []func(*Ctx){ruleC01LatestFetchedUnderOwnID, ruleC06IDFlowsUnmodified, ruleC18Tags, ruleC18GCMLayout, ruleC18KeyIDs, ruleC18KeyIDOperands, ruleC01ProvenanceEncrypt, ruleC01NoExtraGateOnRead, ruleC13FieldFidelity, ruleC13RecordLiteralsComplete, ruleC13KeyFidelity, ruleC18IDsAreDataNotPatterns, ruleC18WrappersKeepOptionalInterfaces, ruleC18RegionSuffixResolvedOnEveryPath, ruleC18ProtoMapping, ruleC18RegionSuffixIsTheConfiguredRegion, ruleC13SidecarMetastoreWiring, ruleC18SidecarNamesVerbatim, ruleC01ProvenanceDecrypt},
+		Rules:       []func(*Ctx){ruleC01LatestFetchedUnderOwnID, ruleC06IDFlowsUnmodified, ruleC18Tags, ruleC18GCMLayout, ruleC18KeyIDs, ruleC18KeyIDOperands, ruleC01ProvenanceEncrypt, ruleC01NoExtraGateOnRead, ruleC13FieldFidelity, ruleC13RecordLiteralsComplete, ruleC13KeyFidelity, ruleC18IDsAreDataNotPatterns, ruleC18WrappersKeepOptionalInterfaces, ruleC18RegionSuffixResolvedOnEveryPath, ruleC18ProtoMapping, ruleC18RegionSuffixIsTheConfiguredRegion, ruleC13SidecarMetastoreWiring, ruleC18SidecarNamesVerbatim, ruleC01ProvenanceDecrypt, ruleC18CreatedIsEpochSeconds},
 	})
 }
 
